@@ -58,6 +58,7 @@ fn one_step_after(prefix: &[u8]) {
 // BOUNDS: alphabet of 12 registrations over 2 marker types; concrete prefixes [], [0], [6,3]; one symbolic step per sequence; unwind 80 (type names < 78 bytes)
 #[kani::proof]
 #[kani::unwind(80)]
+#[kani::stub(log::max_level, log_off)]
 fn c14_one_symbolic_step() {
     one_step_after(&[]);
     one_step_after(&[0]);
@@ -72,6 +73,7 @@ fn c14_one_symbolic_step() {
 // BOUNDS: every ordered pair (a, b) of different registrations, a symbolic over the alphabet of 12, b concrete-enumerated; swapping them changes the hash; unwind 80
 #[kani::proof]
 #[kani::unwind(80)]
+#[kani::stub(log::max_level, log_off)]
 fn c14_order_matters() {
     let a: u8 = kani::any();
     kani::assume(a < ALPHABET);
@@ -99,4 +101,9 @@ fn c14_order_matters() {
         b += 1;
     }
     kani::cover!(a == 11, "last symbol reached");
+}
+
+/// Environment fake: logging is off (otherwise CBMC symbolically executes `core::fmt`).
+fn log_off() -> log::LevelFilter {
+    log::LevelFilter::Off
 }
